@@ -55,6 +55,51 @@ fn main_inner(props: Vec<PropDef>) -> i32 {
             0
         }
         "serve" => crate::props::serve(),
+        "decode" => {
+            // vcheck decode <fuzz target> <input file> [--out replay.json]: decode a libFuzzer
+            // input into an ordinary replay file and judge it here
+            let (target, file) = match (args.get(2), args.get(3)) {
+                (Some(t), Some(f)) => (t.clone(), f.clone()),
+                _ => {
+                    eprintln!("usage: vcheck decode <target> <file> [--out replay.json]");
+                    return 2;
+                }
+            };
+            let data = match std::fs::read(&file) {
+                Ok(d) => d,
+                Err(e) => {
+                    eprintln!("cannot read {}: {}", file, e);
+                    return 2;
+                }
+            };
+            match crate::fuzzdec::judge(&target, &data) {
+                None => {
+                    println!("UNDECODABLE target={} file={}", target, file);
+                    0
+                }
+                Some((prop, sub, case, verdict)) => {
+                    let (sig, msg) = match &verdict {
+                        Ok(_) => (String::new(), String::new()),
+                        Err(f) => (f.sig.clone(), f.msg.clone()),
+                    };
+                    if let Some(out) = arg_val(&args, "--out") {
+                        let doc = serde_json::json!({"property": prop, "subcheck": sub, "profile": profile, "tier": "thorough", "seed": 0,
+                            "signature": sig, "message": msg, "case": case, "origin": format!("libFuzzer target {} input {}", target, file)});
+                        let _ = std::fs::write(&out, serde_json::to_string_pretty(&doc).unwrap());
+                    }
+                    match verdict {
+                        Ok(_) => {
+                            println!("DECODE-PASS property={} target={}", prop, target);
+                            0
+                        }
+                        Err(f) => {
+                            println!("DETAIL property={} profile={} subcheck={} sig={} :: {}", prop, profile, sub, f.sig, f.msg);
+                            1
+                        }
+                    }
+                }
+            }
+        }
         "run" => {
             let id = match args.get(2) {
                 Some(x) => x.clone(),
